@@ -40,7 +40,10 @@ RULE_ADDED = (
               ' '
               'Round 11: devices report non-zero timestamps; the printed Timestamp is compared. '
               ' '
-              'Round 12: device certificate headers beginning with 0x02 / 0x04 / 0x00. ')
+              'Round 12: device certificate headers beginning with 0x02 / 0x04 / 0x00. '
+              ' '
+              'Round 13: the onboarding command run again, same output file, on the device it h'
+              'as onboarded: turned down, certificate file untouched. ')
 RULE = RULE + " " + RULE_ADDED.strip()
 ASSUMPTIONS = [
     "the genuine-device models in pv/simdev/genuine.py (endorsement scheme two: signatures by "
@@ -202,6 +205,7 @@ def ledger_run(acc, cseed, alter, tmpdir):
     dev = gd.dev
     pin = "Abcd1234"
     via_cli = rng.random() < 0.5
+    again = random.Random(cseed ^ 0x0b0a).random() < 0.5
     ud = gen_ud(rng, acc, alter is None)
     setup = os.path.join(tmpdir, "setup.json")
     final = os.path.join(tmpdir, "att.json")
@@ -224,6 +228,8 @@ def ledger_run(acc, cseed, alter, tmpdir):
         steps = [
             ("onboard", do_onboard, options(pin=pin, output_file_path=setup), "yes\n\n"),
             ("reboot", None, None, None),
+            ("onboard-again", do_onboard, options(pin=pin, output_file_path=setup),
+             rng.choice(["yes\n\n", "no\n", "\n"])),
             ("attestation", do_attestation,
              options(pin=pin, output_file_path=final, attestation_certificate_file_path=setup,
                      attestation_ud_source=str(ud)), ""),
@@ -238,6 +244,29 @@ def ledger_run(acc, cseed, alter, tmpdir):
                 if alter == "setup-file":
                     flip_json_hex(setup, rng, lambda d: (rng.choice(d["elements"]),
                                                          rng.choice(["message", "signature"])))
+                continue
+            if name == "onboard-again":
+                # somebody runs the onboarding command again, same output file, on the
+                # device as it is now (onboarded): it is turned down - and the certificate
+                # written by the onboarding that did take place is what it was
+                if alter is not None or not again:
+                    continue
+                acc.count("onboarding_commands_repeated_on_the_onboarded_device")
+                with open(setup, "rb") as f:
+                    before_ = f.read()
+                ok, o, exc = run_step(acc, ae, via_cli, name, fn, opts, stdin)
+                after_ = open(setup, "rb").read() if os.path.exists(setup) else None
+                wipes_ = [e for e in dev.log if e and e[0] == "wipe"]
+                if ok or len(wipes_) != 1:
+                    acc.violation("onboarded-device-onboarded-again", {"wipes": len(wipes_)}, case)
+                    return
+                if after_ != before_:
+                    acc.violation("certificate-file-damaged-by-a-refused-onboarding",
+                                  {"bytes_before": len(before_),
+                                   "bytes_after": None if after_ is None else len(after_)}, case)
+                    return
+                dev.mode = MODE_BOOTLOADER
+                dev.unlocked = False
                 continue
             if name == "verify":
                 root_hex = g1.pub65(gd.root).hex()
@@ -299,6 +328,37 @@ def ledger_run(acc, cseed, alter, tmpdir):
         wipes = [e for e in dev.log if e and e[0] == "wipe"]
         if len(wipes) != 1 or len(wipes[0][1]) != 32 or wipes[0][2] != pin.encode():
             acc.violation("onboarding-did-not-send-seed-and-pin", {"wipes": len(wipes)}, case)
+        # ---- the attestation command run again over its own output, and turned down (the
+        # device does not echo, is not onboarded any more, or is in no mode to be unlocked):
+        # the file that verified a moment ago is what it was
+        if random.Random(cseed ^ 0x0c0c).random() < 0.4:
+            with open(final, "rb") as f:
+                before_ = f.read()
+            why = rng.choice(["echo", "not-onboarded", "mode"])
+            dev.mode = MODE_BOOTLOADER
+            dev.unlocked = False
+            keep_ = (dev.cfg["echo_ok"], dev.onboarded)
+            if why == "echo":
+                dev.cfg["echo_ok"] = False
+            elif why == "not-onboarded":
+                dev.onboarded = False
+            else:
+                dev.mode = 0x07
+            with AdminEnv(dev, "ledger") as ae2:
+                ok2, o2, exc2 = run_step(acc, ae2, via_cli, "attestation", do_attestation,
+                                         options(pin=pin, output_file_path=final,
+                                                 attestation_certificate_file_path=final,
+                                                 attestation_ud_source=str(ud)), "")
+            dev.cfg["echo_ok"], dev.onboarded = keep_
+            acc.count("attestation_commands_turned_down_over_their_own_output")
+            after_ = open(final, "rb").read() if os.path.exists(final) else None
+            if ok2:
+                acc.violation("attestation-gathered-from-a-device-that-is-%s" % why, {}, case)
+            elif after_ != before_:
+                acc.violation("certificate-file-damaged-by-a-refused-attestation",
+                              {"why": why, "bytes_before": len(before_),
+                               "bytes_after": None if after_ is None else len(after_),
+                               "exc": repr(exc2)[:200]}, case)
         if len(acc.samples) < 1:
             acc.sample({"platform": "ledger", "framing": framing, "page_size": gd.page_size,
                         "apdus": len(ae.bus.apdus()), "verify_stdout_tail": out[-500:]})
